@@ -91,8 +91,7 @@ def run_r1(repo: Repo, res: Result, rule_id: str = "C03.R1") -> None:
         # popped nodes that belong to the excluded set are skipped before expansion
         if pushes:
             n += 1
-            g = guard_formula(fi, m.neighbour_call)
-            ok = all(implies(g, f_not(atom(f"{m.popped} in {x}"))) for x in exc)
+            ok = all(all(implies(m.guard_of(c), f_not(atom(f"{m.popped} in {x}"))) for c in (m.neighbour_calls or [m.neighbour_call])) for x in exc)
             res.add(rule_id, f"{fi.relpath}::{getattr(fi, 'shown', fi.qualname)}::excluded nodes are not expanded", ok, "popped nodes in the excluded set are skipped" if ok else f"a popped node in `{exc[0]}` is expanded: imports of the rule's objects are reported as the subject's", where(fi, m.neighbour_call), kind="dominance")
         else:
             n += 1
